@@ -33,9 +33,11 @@ ASSUMPTIONS = [
 ]
 TECHNIQUE = ("Coq proof (totality incl. fuel, soundness, completeness of the engine model; simulation between the engine's shadow "
              "parse and the PARSER model's token loop along option prefixes and subcommand names; end-to-end acceptance of every "
-             "offered option/subcommand candidate by parse_top on whole lines; level correspondence) + extracted-model/implementation "
+             "offered option/subcommand candidate by parse_top on whole lines - round 4: lines with positional values, multi-valued "
+             "options, -o=v, per-level subcommand_precedence_over_arg and args_conflicts_with_subcommands, with the engine's pos_index "
+             "and valid_arg_found proved equal to the parser's counter and flag; level correspondence) + extracted-model/implementation "
              "correspondence")
-LEVEL_TEXT = ("Machine-checked theorems (Coq 8.16, 54 pinned, all closed under the global context) about a function-by-function "
+LEVEL_TEXT = ("Machine-checked theorems (Coq 8.16, 67 pinned, all closed under the global context) about a function-by-function "
               "model of clap_complete::engine::complete: no panic site is reachable and no fuel runs out for any command, argv "
               "and index (build_full's fuel proved sufficient); in state ValueDone every option/subcommand candidate extends the "
               "word and names an option/alias/subcommand of the level reached by the shadow parse; under assert_app's uniqueness "
@@ -56,14 +58,27 @@ LEVEL_TEXT = ("Machine-checked theorems (Coq 8.16, 54 pinned, all closed under t
               "values of the positional at pos_index (sound for plain words, complete for visible values, hidden ones offered "
               "unless a visible candidate is); after `--` the shadow parse reads no token as an option (C18_escaped_step) while "
               "the candidates are not restricted to positionals (C18_escape_only_positionals_refuted, outside the property).  "
+              "Round 4 (Complete/EngineItems.v, EngineWide.v; the model follows the repair of finding C18-args-conflict: shadow_step keeps "
+              "the parser's per-level valid_arg_found): the engine's find_pos IS the parser's get_pos; items widened by -o=v and multi-valued "
+              "options with exactly max values (C18_state_agreement_item18), inside such an occurrence Opt a (j+1) <-> PSOpt with j pending "
+              "values (C18_values_agree); values of single-valued positionals move pos_index exactly as the parser's counter, values of a "
+              "multi-valued positional keep Pos pos k <-> PSPos at the same counter, a subcommand name behind them dispatches iff THE LEVEL "
+              "REACHED sets subcommand_precedence_over_arg (C18_state_agreement_positionals); whole lines pline (C18_shadow_pline, "
+              "C18_flag_agreement: level, pos_index and valid_arg_found equal the parser's) and END TO END C18_candidate_accepted_pline "
+              "(supersedes the round-3 line theorem: C18_cline_is_pline), including levels with args_conflicts_with_subcommands "
+              "(left before their own arguments; behind one, a subcommand name is a positional value for both machines: "
+              "C18_args_conflict_levels; before/after witnesses of the finding: C18_args_conflict_before_after).  "
               "The model is tied to clap_complete by running the extracted model "
               "and the real crate on the same generated cases on every check; an independent python oracle splices each candidate "
               "into the line and has the real parser accept it.")
 LEVEL_NOTE = ("Trusted: Coq kernel, extraction, OCaml driver, Rust harness, generators; Command::build blocks and assert_app "
               "shared with the parser model.  Differential/oracle only: ordering of candidates; agreement of the shadow parse's "
-              "state with the parser's OUTSIDE the class prefix_ok (multi-value options, terminators, hyphen values, flag "
-              "subcommands, the generated help subtree); acceptance on whole lines by the REAL parser; custom/path completers "
-              "not modelled.  Class boundaries kept as theorems with witnesses replayed on the real crate: require_equals "
+              "state with the parser's OUTSIDE the classes item18/pitems18/body18 (multi-valued options with fewer than max values "
+              "followed by another argument, terminators, hyphen values, require_equals, low-index multiples / allow_missing_positional, "
+              "a bounded multi-valued positional after its maximum, flag subcommands, inferred names, the generated help subtree); "
+              "acceptance on whole lines by the REAL parser; custom/path completers not modelled.  A value terminator is unknown to the "
+              "engine (C18_terminator_refuted: `p --opt a ; sub <TAB>` offers an option of the wrong level, replayed on the crate; "
+              "reported, oracle bails out on terminators).  Class boundaries kept as theorems with witnesses replayed on the real crate: require_equals "
               "(C18_require_equals_refuted: `p --opt <TAB>` offers a value the parser rejects with UnknownArgument); an option "
               "without long name but with a visible alias is neither recognised by the shadow parse (C18_same_long_refuted) nor "
               "offered (C18_complete_options_alias_refuted = known finding C18-alias-without-primary); --alias=<TAB> offers no values "
@@ -184,7 +199,7 @@ def find_sub(node, name):
 
 UNSAFE_CMD_FLAGS = {"allow_external_subcommands", "allow_missing_positional", "multicall"}
 # `args_conflicts_with_subcommands` is per level and so is the parser's "an argument was seen" flag: at a level that sets
-# it a subcommand name is recognised as long as no argument OF THAT LEVEL came before it (after one, the scan gives up).
+# it a subcommand name is recognised as long as no argument OF THAT LEVEL came before it (after one, it is a plain word).
 # `subcommand_precedence_over_arg` is a per-command setting (it is not propagated): at a level that sets it a word naming a
 # subcommand is that subcommand even while a multiple positional is being filled; the scan follows the level it is at.
 
@@ -261,7 +276,10 @@ def scan_prefix(root, words):
             continue
         s = find_sub(level, w)
         if s is not None and seen_arg and "args_conflicts_with_subcommands" in level["flags"]:
-            return None
+            # behind an argument of such a level the parser does not look for subcommands: the word is a plain word
+            # (a positional value, or an error of the prefix line - then CLEAN_PREFIX drops the case); the level reached
+            # is still this one (finding C18-args-conflict: the engine used to descend)
+            s = None
         if s is not None and (not in_pos or "subcommand_precedence_over_arg" in level["flags"]):
             in_pos = False
             seen_arg = False
@@ -289,8 +307,8 @@ def scan_prefix(root, words):
         i += 1
     if level["flags"] & UNSAFE_CMD_FLAGS:
         return None
-    if seen_arg and "args_conflicts_with_subcommands" in level["flags"]:
-        return None       # subcommand names are no valid continuation here; options still are, but keep it simple
+    # behind an argument of a level with args_conflicts_with_subcommands subcommand names are no valid continuation (the
+    # parser answers ArgumentConflict, not an unknown-token kind); options are: the level is judged like any other
     return level, weak
 
 
